@@ -96,3 +96,12 @@ Proof.
   split; [intros e [<-|[<-|[<-|[]]]]; reflexivity|].
   split; vm_compute; reflexivity.
 Qed.
+
+(* the slice gate and end test of the model are the expressions regenerated from the source on this run *)
+From SZ Require Import Base.BridgeSlice.
+Theorem C01_slice_kernel_matches_source : forall start stop step s p x m, 1 <= step ->
+  update (KSlice start stop step) s p x m =
+  Some ((if Gen.KSlice.gen_slice_pass (Z.of_nat (st_n s)) (Z.of_nat start) (Z.of_nat step) then [Nodes.AEmit x m] else [])
+        ++ [ASet (set_n s (S (st_n s)) (Gen.KSlice.gen_slice_done (Z.of_nat (S (st_n s))) (option_map Z.of_nat stop)))]).
+Proof. exact bridge_slice_update. Qed.
+Print Assumptions C01_slice_kernel_matches_source.
